@@ -1265,6 +1265,32 @@ Example no_category_hypotheses :
   /\ Forall passed cases1.
 Proof. split; [reflexivity|apply default_hypotheses]. Qed.
 
+(* the rejected inputs: test 9 is not registered; test 8 returns something that is no test result; test 7 matches
+   with a match that does not convert to text; a case naming a category the router does not have *)
+Definition reg' (t : test_id) : bool := negb (N.eqb t 9).
+Definition tx' (v : N) : option text := if N.eqb v 99 then None else Some [v].
+Definition tst' (t : test_id) (op : N) (args : list N) : test_result N :=
+  match t with
+  | 8 => TOther
+  | 7 => TObject true (Some 99) ExAbsent
+  | _ => tst t op args
+  end.
+
+Example rejects_hypotheses :
+  let R cs := ro_res (route_switch N ev tx' reg' tst' lc0 640 b0 [5] (kase 0 5 11 :: cs) 13 None) in
+  Forall (passed_over N ev reg' tst' lc0 5) [kase 0 5 11]
+  /\ (reg' (k_test (kase 9 5 11)) = false /\ R [kase 9 5 11] = RError)
+  /\ (case_result N ev tst' lc0 5 (kase 8 5 11) = TOther /\ R [kase 8 5 11] = RPanic)
+  /\ (matches N ev reg' tst' lc0 5 (kase 7 5 11) (Some 99) ExAbsent /\ opt_to_xtext N tx' (Some 99) = None
+      /\ R [kase 7 5 11] = RError)
+  /\ (matches N ev reg' tst' lc0 5 (kase 2 5 44) (Some 7) ExAbsent /\ find_category (b_categories b0) 44 = None
+      /\ R [kase 2 5 44] = RError).
+Proof.
+  cbn zeta. split.
+  { constructor; [split; [reflexivity|left; reflexivity]|constructor]. }
+  repeat split.
+Qed.
+
 End Demo.
 
 Lemma truncate_spec (limit : nat) (t : text) :
